@@ -388,6 +388,18 @@ func sesRun(t *testing.T, lines []string) []string {
 				hdr := http.Header{"Content-Type": {"application/x-www-form-urlencoded"}}
 				s0 := sess(f[2])
 				w.request("POST", w.sesURL(s0)+"&j="+url.QueryEscape(w.jOf[f[2]]), hdr, body, true, false)
+			case "badupgrade": // ses badupgrade <s|-> <version|nokey>: an upgrade request the WebSocket handshake itself refuses
+				q := "transport=websocket&EIO=4"
+				if f[2] != "-" {
+					q += "&sid=" + sess(f[2]).Id()
+				}
+				hdr := http.Header{"Connection": {"Upgrade"}, "Upgrade": {"websocket"}, "Sec-Websocket-Version": {"13"}, "Sec-Websocket-Key": {"dGhlIHNhbXBsZSBub25jZQ=="}}
+				if f[3] == "nokey" {
+					hdr.Del("Sec-Websocket-Key")
+				} else {
+					hdr.Set("Sec-Websocket-Version", f[3])
+				}
+				w.request("GET", "/engine.io/?"+q, hdr, nil, false, false)
 			case "abort": // ses abort <r>
 				w.reqs[atoi(f[2])].abort()
 			case "ws": // ses ws <s|-> <eio> <b64>: a websocket handshake or an upgrade candidate
